@@ -173,7 +173,7 @@ def execute(case, decisions=None, exact=False):
     probe.install(sched)
     try:
         try:
-            v = sched.run(vf_tasks.node(case["prog"], {}))
+            v = sched.run(vf_tasks.node(P.fresh(case["prog"]), {}))
             kind, payload = "ok", v
         except C.Quiescent as q:
             kind, payload = "quiescent", q
